@@ -966,11 +966,17 @@ class NetworkGraph(AbstractBaseIR):
                     weighting = ""
                 else:
                     weighting = f" * {w_str}"
-                    args[w_str] = {'vtype': 'constant', 'dtype': 'float', 'value': weight if ssize > 1 else weight[0]}
+                    # one weight per edge - also when a single scalar source feeds several elements of the target
+                    args[w_str] = {'vtype': 'constant', 'dtype': 'float',
+                                   'value': weight if ssize > 1 or len(weight) > 1 else weight[0]}
 
                 # get final source and target strings
-                s_str_final = _get_indexed_var_str(s_str, sidx, ssize, reduce=m == 1 and tsize > 1 and n == 1,
-                                                   idx_str=sidx_str, arg_dict=args)
+                if ssize == 1 and m > 1:
+                    # a scalar source cannot be indexed; it is broadcast over the addressed target elements
+                    s_str_final = s_str
+                else:
+                    s_str_final = _get_indexed_var_str(s_str, sidx, ssize, reduce=m == 1 and tsize > 1 and n == 1,
+                                                       idx_str=sidx_str, arg_dict=args)
                 t_str_final = _get_indexed_var_str(t_str, tidx, tsize, reduce=tsize > 1 or ssize < tsize,
                                                    idx_str=tidx_str, arg_dict=args)
 
